@@ -148,7 +148,7 @@ def openConn (s : St) (tcp : Bool) (srv : Server) : (Except Status Nat) × St :=
         (.ok fd, s)
 
 /-- `ares_conn_query_write` up to the append to out_buf: `ares_cookie_apply`, frame, write log (pure) -/
-def sqPrep (key : Nat) (q : Query) (srv : Server) (fd : Nat) (s : St) : St × Query :=
+def sqPrepare (key : Nat) (q : Query) (srv : Server) (fd : Nat) (s : St) : St × Query :=
   let cTcp := ((s.conn? fd).map (·.tcp)).getD q.usingTcp
   let cSelf := ((s.conn? fd).map (·.selfIp)).getD 0
   let srvNow0 := (s.server? srv.id).getD srv
@@ -178,29 +178,34 @@ def sqFlush (go : Call → St → St × Ret) (fd : Nat) (s : St) : Status × St 
     let (s, r) := go (.flush fd) s
     (r, s)
 
-/-- `ares_send_query` after a successful write: timeout, by-timeout index, connection list, probe -/
+/-- `ares_send_query` after a successful write: timeout computation (`ares_calc_query_timeout`), by-timeout index,
+    unlinking from the previous connection's list, deadline (pure) -/
+def sqLinkPre (key : Nat) (srv : Server) (fd : Nat) (q : Query) (s : St) : St :=
+  let srvNow := (s.server? srv.id).getD srv
+  let timeout := s.serverTimeout srvNow
+  let nsrv := s.servers.length
+  let rounds := q.tryCount / nsrv
+  let timeplus := if rounds > 0 then timeout * 2 ^ rounds else timeout
+  let timeplus := if s.cfg.maxtimeout != 0 && timeplus > s.cfg.maxtimeout then s.cfg.maxtimeout else timeplus
+  let (dl, s) : Deadline × St :=
+    if rounds > 0 then
+      let (_, s) := s.draw2
+      let lo := max timeout (timeplus - timeplus / 2)
+      let hi := max timeout timeplus
+      (.pending (s.now + lo) (s.now + hi), s)
+    else (.at (s.now + max timeplus timeout), s)
+  let s := { s with byTimeout := s.byTimeout.erase key }
+  let s := match q.conn with
+    | some old => s.modConn old fun c => { c with queries := c.queries.erase key }
+    | none => s
+  let s := s.modQuery key fun q => { q with ts := s.now, deadline := dl, conn := some fd, inConnList := true }
+  { s with pendingOrder := s.pendingOrder.erase key ++ [key] }
+
+/-- … then the query is linked to (and counted on) its connection, and a downed server may be probed -/
 def sqLink (go : Call → St → St × Ret) (probeDowned : Bool) (key : Nat) (srv : Server) (fd : Nat) (s : St) : St × Ret :=
   match s.query? key, s.conn? fd with
   | some q, some _ =>
-    let srvNow := (s.server? srv.id).getD srv
-    let timeout := s.serverTimeout srvNow
-    let nsrv := s.servers.length
-    let rounds := q.tryCount / nsrv
-    let timeplus := if rounds > 0 then timeout * 2 ^ rounds else timeout
-    let timeplus := if s.cfg.maxtimeout != 0 && timeplus > s.cfg.maxtimeout then s.cfg.maxtimeout else timeplus
-    let (dl, s) : Deadline × St :=
-      if rounds > 0 then
-        let (_, s) := s.draw2
-        let lo := max timeout (timeplus - timeplus / 2)
-        let hi := max timeout timeplus
-        (.pending (s.now + lo) (s.now + hi), s)
-      else (.at (s.now + max timeplus timeout), s)
-    let s := { s with byTimeout := s.byTimeout.erase key }
-    let s := match q.conn with
-      | some old => s.modConn old fun c => { c with queries := c.queries.erase key }
-      | none => s
-    let s := s.modQuery key fun q => { q with ts := s.now, deadline := dl, conn := some fd, inConnList := true }
-    let s := { s with pendingOrder := s.pendingOrder.erase key ++ [key] }
+    let s := sqLinkPre key srv fd q s
     let s := s.modConn fd fun c => { c with queries := c.queries.erase key ++ [key], total := c.total + 1 }
     if probeDowned then
       let (s, _) := go (.probe srv.id key) s
@@ -210,9 +215,9 @@ def sqLink (go : Call → St → St × Ret) (probeDowned : Bool) (key : Nat) (sr
   | _, none => (s.mfault s!"uaf-conn({fd}) after write in ares_send_query", .other)
 
 /-- the part of `ares_send_query` after a connection has been found: `ares_conn_query_write`, timeout, linking -/
-def sqWrite (go : Call → St → St × Ret) (reqSrv : Option Nat) (key : Nat) (q : Query) (srv : Server) (fd : Nat) (s : St) : St × Ret :=
+def sqWriteQ (go : Call → St → St × Ret) (reqSrv : Option Nat) (key : Nat) (q : Query) (srv : Server) (fd : Nat) (s : St) : St × Ret :=
   let probeDowned := reqSrv.isNone && srv.failures == 0 && q.tryCount == 0
-  let (s, q) := sqPrep key q srv fd s
+  let (s, q) := sqPrepare key q srv fd s
   let (wst, s) : Status × St := sqFlush go fd s
   match wst with
   | .ok => sqLink go probeDowned key srv fd s
@@ -229,7 +234,7 @@ def sqWrite (go : Call → St → St × Ret) (reqSrv : Option Nat) (key : Nat) (
     go (.requeue key wst' true none false) s
 
 /-- `ares_send_query` decomposed into its stages (definitional) -/
-theorem bodySendQuery_eq (go : Call → St → St × Ret) (reqSrv : Option Nat) (key : Nat) (s : St) :
+theorem bodySendQuery_stages (go : Call → St → St × Ret) (reqSrv : Option Nat) (key : Nat) (s : St) :
     bodySendQuery go reqSrv key s =
       match s.query? key with
       | none => (s.mfault s!"uaf-query({key}) in ares_send_query", .other)
@@ -246,7 +251,7 @@ theorem bodySendQuery_eq (go : Call → St → St × Ret) (reqSrv : Option Nat) 
             | none => openConn s q.usingTcp srv
           match connRes with
           | .error st => go (.requeue key st true none false) (s.incFailures srv.id q.usingTcp)
-          | .ok fd => sqWrite go reqSrv key q srv fd s := by
+          | .ok fd => sqWriteQ go reqSrv key q srv fd s := by
   rfl
 
 /-- peel a goal `P (…).1` about the result of a body: strip primitive updates with the frame lemmas (plus the
@@ -402,62 +407,128 @@ variable (s : St)
   unfold openConn; chan_simp
 @[simp, chan_frame] theorem openConn_nextClient (tcp : Bool) (srv : Server) : (openConn s tcp srv).2.nextClient = s.nextClient := by
   unfold openConn; chan_simp
-@[simp, chan_frame] theorem sqPrep_cfg (key : Nat) (q : Query) (srv : Server) (fd : Nat) : (sqPrep key q srv fd s).1.cfg = s.cfg := by
-  unfold sqPrep; chan_simp
-@[simp, chan_frame] theorem sqPrep_now (key : Nat) (q : Query) (srv : Server) (fd : Nat) : (sqPrep key q srv fd s).1.now = s.now := by
-  unfold sqPrep; chan_simp
-@[simp, chan_frame] theorem sqPrep_nextKey (key : Nat) (q : Query) (srv : Server) (fd : Nat) : (sqPrep key q srv fd s).1.nextKey = s.nextKey := by
-  unfold sqPrep; chan_simp
-@[simp, chan_frame] theorem sqPrep_all (key : Nat) (q : Query) (srv : Server) (fd : Nat) : (sqPrep key q srv fd s).1.all = s.all := by
-  unfold sqPrep; chan_simp
-@[simp, chan_frame] theorem sqPrep_byQid (key : Nat) (q : Query) (srv : Server) (fd : Nat) : (sqPrep key q srv fd s).1.byQid = s.byQid := by
-  unfold sqPrep; chan_simp
-@[simp, chan_frame] theorem sqPrep_byTimeout (key : Nat) (q : Query) (srv : Server) (fd : Nat) : (sqPrep key q srv fd s).1.byTimeout = s.byTimeout := by
-  unfold sqPrep; chan_simp
-@[simp, chan_frame] theorem sqPrep_listCopy (key : Nat) (q : Query) (srv : Server) (fd : Nat) : (sqPrep key q srv fd s).1.listCopy = s.listCopy := by
-  unfold sqPrep; chan_simp
-@[simp, chan_frame] theorem sqPrep_socks (key : Nat) (q : Query) (srv : Server) (fd : Nat) : (sqPrep key q srv fd s).1.socks = s.socks := by
-  unfold sqPrep; chan_simp
-@[simp, chan_frame] theorem sqPrep_nextFd (key : Nat) (q : Query) (srv : Server) (fd : Nat) : (sqPrep key q srv fd s).1.nextFd = s.nextFd := by
-  unfold sqPrep; chan_simp
-@[simp, chan_frame] theorem sqPrep_txs (key : Nat) (q : Query) (srv : Server) (fd : Nat) : (sqPrep key q srv fd s).1.txs = s.txs := by
-  unfold sqPrep; chan_simp
-@[simp, chan_frame] theorem sqPrep_cache (key : Nat) (q : Query) (srv : Server) (fd : Nat) : (sqPrep key q srv fd s).1.cache = s.cache := by
-  unfold sqPrep; chan_simp
-@[simp, chan_frame] theorem sqPrep_requeueArr (key : Nat) (q : Query) (srv : Server) (fd : Nat) : (sqPrep key q srv fd s).1.requeueArr = s.requeueArr := by
-  unfold sqPrep; chan_simp
-@[simp, chan_frame] theorem sqPrep_notifyLog (key : Nat) (q : Query) (srv : Server) (fd : Nat) : (sqPrep key q srv fd s).1.notifyLog = s.notifyLog := by
-  unfold sqPrep; chan_simp
-@[simp, chan_frame] theorem sqPrep_sockLog (key : Nat) (q : Query) (srv : Server) (fd : Nat) : (sqPrep key q srv fd s).1.sockLog = s.sockLog := by
-  unfold sqPrep; chan_simp
-@[simp, chan_frame] theorem sqPrep_accepted (key : Nat) (q : Query) (srv : Server) (fd : Nat) : (sqPrep key q srv fd s).1.accepted = s.accepted := by
-  unfold sqPrep; chan_simp
-@[simp, chan_frame] theorem sqPrep_picks (key : Nat) (q : Query) (srv : Server) (fd : Nat) : (sqPrep key q srv fd s).1.picks = s.picks := by
-  unfold sqPrep; chan_simp
-@[simp, chan_frame] theorem sqPrep_destroying (key : Nat) (q : Query) (srv : Server) (fd : Nat) : (sqPrep key q srv fd s).1.destroying = s.destroying := by
-  unfold sqPrep; chan_simp
-@[simp, chan_frame] theorem sqPrep_destroyed (key : Nat) (q : Query) (srv : Server) (fd : Nat) : (sqPrep key q srv fd s).1.destroyed = s.destroyed := by
-  unfold sqPrep; chan_simp
-@[simp, chan_frame] theorem sqPrep_outOfFuel (key : Nat) (q : Query) (srv : Server) (fd : Nat) : (sqPrep key q srv fd s).1.outOfFuel = s.outOfFuel := by
-  unfold sqPrep; chan_simp
-@[simp, chan_frame] theorem sqPrep_modelFaults (key : Nat) (q : Query) (srv : Server) (fd : Nat) : (sqPrep key q srv fd s).1.modelFaults = s.modelFaults := by
-  unfold sqPrep; chan_simp
-@[simp, chan_frame] theorem sqPrep_clients (key : Nat) (q : Query) (srv : Server) (fd : Nat) : (sqPrep key q srv fd s).1.clients = s.clients := by
-  unfold sqPrep; chan_simp
-@[simp, chan_frame] theorem sqPrep_pendingWl (key : Nat) (q : Query) (srv : Server) (fd : Nat) : (sqPrep key q srv fd s).1.pendingWl = s.pendingWl := by
-  unfold sqPrep; chan_simp
-@[simp, chan_frame] theorem sqPrep_selfVariant (key : Nat) (q : Query) (srv : Server) (fd : Nat) : (sqPrep key q srv fd s).1.selfVariant = s.selfVariant := by
-  unfold sqPrep; chan_simp
-@[simp, chan_frame] theorem sqPrep_faults (key : Nat) (q : Query) (srv : Server) (fd : Nat) : (sqPrep key q srv fd s).1.faults = s.faults := by
-  unfold sqPrep; chan_simp
-@[simp, chan_frame] theorem sqPrep_reactions (key : Nat) (q : Query) (srv : Server) (fd : Nat) : (sqPrep key q srv fd s).1.reactions = s.reactions := by
-  unfold sqPrep; chan_simp
-@[simp, chan_frame] theorem sqPrep_notifyPending (key : Nat) (q : Query) (srv : Server) (fd : Nat) : (sqPrep key q srv fd s).1.notifyPending = s.notifyPending := by
-  unfold sqPrep; chan_simp
-@[simp, chan_frame] theorem sqPrep_alive (key : Nat) (q : Query) (srv : Server) (fd : Nat) : (sqPrep key q srv fd s).1.alive = s.alive := by
-  unfold sqPrep; chan_simp
-@[simp, chan_frame] theorem sqPrep_nextClient (key : Nat) (q : Query) (srv : Server) (fd : Nat) : (sqPrep key q srv fd s).1.nextClient = s.nextClient := by
-  unfold sqPrep; chan_simp
+@[simp, chan_frame] theorem sqPrepare_cfg (key : Nat) (q : Query) (srv : Server) (fd : Nat) : (sqPrepare key q srv fd s).1.cfg = s.cfg := by
+  unfold sqPrepare; chan_simp
+@[simp, chan_frame] theorem sqPrepare_now (key : Nat) (q : Query) (srv : Server) (fd : Nat) : (sqPrepare key q srv fd s).1.now = s.now := by
+  unfold sqPrepare; chan_simp
+@[simp, chan_frame] theorem sqPrepare_nextKey (key : Nat) (q : Query) (srv : Server) (fd : Nat) : (sqPrepare key q srv fd s).1.nextKey = s.nextKey := by
+  unfold sqPrepare; chan_simp
+@[simp, chan_frame] theorem sqPrepare_all (key : Nat) (q : Query) (srv : Server) (fd : Nat) : (sqPrepare key q srv fd s).1.all = s.all := by
+  unfold sqPrepare; chan_simp
+@[simp, chan_frame] theorem sqPrepare_byQid (key : Nat) (q : Query) (srv : Server) (fd : Nat) : (sqPrepare key q srv fd s).1.byQid = s.byQid := by
+  unfold sqPrepare; chan_simp
+@[simp, chan_frame] theorem sqPrepare_byTimeout (key : Nat) (q : Query) (srv : Server) (fd : Nat) : (sqPrepare key q srv fd s).1.byTimeout = s.byTimeout := by
+  unfold sqPrepare; chan_simp
+@[simp, chan_frame] theorem sqPrepare_listCopy (key : Nat) (q : Query) (srv : Server) (fd : Nat) : (sqPrepare key q srv fd s).1.listCopy = s.listCopy := by
+  unfold sqPrepare; chan_simp
+@[simp, chan_frame] theorem sqPrepare_socks (key : Nat) (q : Query) (srv : Server) (fd : Nat) : (sqPrepare key q srv fd s).1.socks = s.socks := by
+  unfold sqPrepare; chan_simp
+@[simp, chan_frame] theorem sqPrepare_nextFd (key : Nat) (q : Query) (srv : Server) (fd : Nat) : (sqPrepare key q srv fd s).1.nextFd = s.nextFd := by
+  unfold sqPrepare; chan_simp
+@[simp, chan_frame] theorem sqPrepare_txs (key : Nat) (q : Query) (srv : Server) (fd : Nat) : (sqPrepare key q srv fd s).1.txs = s.txs := by
+  unfold sqPrepare; chan_simp
+@[simp, chan_frame] theorem sqPrepare_cache (key : Nat) (q : Query) (srv : Server) (fd : Nat) : (sqPrepare key q srv fd s).1.cache = s.cache := by
+  unfold sqPrepare; chan_simp
+@[simp, chan_frame] theorem sqPrepare_requeueArr (key : Nat) (q : Query) (srv : Server) (fd : Nat) : (sqPrepare key q srv fd s).1.requeueArr = s.requeueArr := by
+  unfold sqPrepare; chan_simp
+@[simp, chan_frame] theorem sqPrepare_notifyLog (key : Nat) (q : Query) (srv : Server) (fd : Nat) : (sqPrepare key q srv fd s).1.notifyLog = s.notifyLog := by
+  unfold sqPrepare; chan_simp
+@[simp, chan_frame] theorem sqPrepare_sockLog (key : Nat) (q : Query) (srv : Server) (fd : Nat) : (sqPrepare key q srv fd s).1.sockLog = s.sockLog := by
+  unfold sqPrepare; chan_simp
+@[simp, chan_frame] theorem sqPrepare_accepted (key : Nat) (q : Query) (srv : Server) (fd : Nat) : (sqPrepare key q srv fd s).1.accepted = s.accepted := by
+  unfold sqPrepare; chan_simp
+@[simp, chan_frame] theorem sqPrepare_picks (key : Nat) (q : Query) (srv : Server) (fd : Nat) : (sqPrepare key q srv fd s).1.picks = s.picks := by
+  unfold sqPrepare; chan_simp
+@[simp, chan_frame] theorem sqPrepare_destroying (key : Nat) (q : Query) (srv : Server) (fd : Nat) : (sqPrepare key q srv fd s).1.destroying = s.destroying := by
+  unfold sqPrepare; chan_simp
+@[simp, chan_frame] theorem sqPrepare_destroyed (key : Nat) (q : Query) (srv : Server) (fd : Nat) : (sqPrepare key q srv fd s).1.destroyed = s.destroyed := by
+  unfold sqPrepare; chan_simp
+@[simp, chan_frame] theorem sqPrepare_outOfFuel (key : Nat) (q : Query) (srv : Server) (fd : Nat) : (sqPrepare key q srv fd s).1.outOfFuel = s.outOfFuel := by
+  unfold sqPrepare; chan_simp
+@[simp, chan_frame] theorem sqPrepare_modelFaults (key : Nat) (q : Query) (srv : Server) (fd : Nat) : (sqPrepare key q srv fd s).1.modelFaults = s.modelFaults := by
+  unfold sqPrepare; chan_simp
+@[simp, chan_frame] theorem sqPrepare_clients (key : Nat) (q : Query) (srv : Server) (fd : Nat) : (sqPrepare key q srv fd s).1.clients = s.clients := by
+  unfold sqPrepare; chan_simp
+@[simp, chan_frame] theorem sqPrepare_pendingWl (key : Nat) (q : Query) (srv : Server) (fd : Nat) : (sqPrepare key q srv fd s).1.pendingWl = s.pendingWl := by
+  unfold sqPrepare; chan_simp
+@[simp, chan_frame] theorem sqPrepare_selfVariant (key : Nat) (q : Query) (srv : Server) (fd : Nat) : (sqPrepare key q srv fd s).1.selfVariant = s.selfVariant := by
+  unfold sqPrepare; chan_simp
+@[simp, chan_frame] theorem sqPrepare_faults (key : Nat) (q : Query) (srv : Server) (fd : Nat) : (sqPrepare key q srv fd s).1.faults = s.faults := by
+  unfold sqPrepare; chan_simp
+@[simp, chan_frame] theorem sqPrepare_reactions (key : Nat) (q : Query) (srv : Server) (fd : Nat) : (sqPrepare key q srv fd s).1.reactions = s.reactions := by
+  unfold sqPrepare; chan_simp
+@[simp, chan_frame] theorem sqPrepare_notifyPending (key : Nat) (q : Query) (srv : Server) (fd : Nat) : (sqPrepare key q srv fd s).1.notifyPending = s.notifyPending := by
+  unfold sqPrepare; chan_simp
+@[simp, chan_frame] theorem sqPrepare_alive (key : Nat) (q : Query) (srv : Server) (fd : Nat) : (sqPrepare key q srv fd s).1.alive = s.alive := by
+  unfold sqPrepare; chan_simp
+@[simp, chan_frame] theorem sqPrepare_nextClient (key : Nat) (q : Query) (srv : Server) (fd : Nat) : (sqPrepare key q srv fd s).1.nextClient = s.nextClient := by
+  unfold sqPrepare; chan_simp
+@[simp, chan_frame] theorem sqLinkPre_cfg (key : Nat) (srv : Server) (fd : Nat) (q : Query) : (sqLinkPre key srv fd q s).cfg = s.cfg := by
+  unfold sqLinkPre; chan_simp
+@[simp, chan_frame] theorem sqLinkPre_now (key : Nat) (srv : Server) (fd : Nat) (q : Query) : (sqLinkPre key srv fd q s).now = s.now := by
+  unfold sqLinkPre; chan_simp
+@[simp, chan_frame] theorem sqLinkPre_servers (key : Nat) (srv : Server) (fd : Nat) (q : Query) : (sqLinkPre key srv fd q s).servers = s.servers := by
+  unfold sqLinkPre; chan_simp
+@[simp, chan_frame] theorem sqLinkPre_nextKey (key : Nat) (srv : Server) (fd : Nat) (q : Query) : (sqLinkPre key srv fd q s).nextKey = s.nextKey := by
+  unfold sqLinkPre; chan_simp
+@[simp, chan_frame] theorem sqLinkPre_all (key : Nat) (srv : Server) (fd : Nat) (q : Query) : (sqLinkPre key srv fd q s).all = s.all := by
+  unfold sqLinkPre; chan_simp
+@[simp, chan_frame] theorem sqLinkPre_byQid (key : Nat) (srv : Server) (fd : Nat) (q : Query) : (sqLinkPre key srv fd q s).byQid = s.byQid := by
+  unfold sqLinkPre; chan_simp
+@[simp, chan_frame] theorem sqLinkPre_listCopy (key : Nat) (srv : Server) (fd : Nat) (q : Query) : (sqLinkPre key srv fd q s).listCopy = s.listCopy := by
+  unfold sqLinkPre; chan_simp
+@[simp, chan_frame] theorem sqLinkPre_socks (key : Nat) (srv : Server) (fd : Nat) (q : Query) : (sqLinkPre key srv fd q s).socks = s.socks := by
+  unfold sqLinkPre; chan_simp
+@[simp, chan_frame] theorem sqLinkPre_nextFd (key : Nat) (srv : Server) (fd : Nat) (q : Query) : (sqLinkPre key srv fd q s).nextFd = s.nextFd := by
+  unfold sqLinkPre; chan_simp
+@[simp, chan_frame] theorem sqLinkPre_txs (key : Nat) (srv : Server) (fd : Nat) (q : Query) : (sqLinkPre key srv fd q s).txs = s.txs := by
+  unfold sqLinkPre; chan_simp
+@[simp, chan_frame] theorem sqLinkPre_cache (key : Nat) (srv : Server) (fd : Nat) (q : Query) : (sqLinkPre key srv fd q s).cache = s.cache := by
+  unfold sqLinkPre; chan_simp
+@[simp, chan_frame] theorem sqLinkPre_requeueArr (key : Nat) (srv : Server) (fd : Nat) (q : Query) : (sqLinkPre key srv fd q s).requeueArr = s.requeueArr := by
+  unfold sqLinkPre; chan_simp
+@[simp, chan_frame] theorem sqLinkPre_writeLog (key : Nat) (srv : Server) (fd : Nat) (q : Query) : (sqLinkPre key srv fd q s).writeLog = s.writeLog := by
+  unfold sqLinkPre; chan_simp
+@[simp, chan_frame] theorem sqLinkPre_notifyLog (key : Nat) (srv : Server) (fd : Nat) (q : Query) : (sqLinkPre key srv fd q s).notifyLog = s.notifyLog := by
+  unfold sqLinkPre; chan_simp
+@[simp, chan_frame] theorem sqLinkPre_sockLog (key : Nat) (srv : Server) (fd : Nat) (q : Query) : (sqLinkPre key srv fd q s).sockLog = s.sockLog := by
+  unfold sqLinkPre; chan_simp
+@[simp, chan_frame] theorem sqLinkPre_accepted (key : Nat) (srv : Server) (fd : Nat) (q : Query) : (sqLinkPre key srv fd q s).accepted = s.accepted := by
+  unfold sqLinkPre; chan_simp
+@[simp, chan_frame] theorem sqLinkPre_picks (key : Nat) (srv : Server) (fd : Nat) (q : Query) : (sqLinkPre key srv fd q s).picks = s.picks := by
+  unfold sqLinkPre; chan_simp
+@[simp, chan_frame] theorem sqLinkPre_destroying (key : Nat) (srv : Server) (fd : Nat) (q : Query) : (sqLinkPre key srv fd q s).destroying = s.destroying := by
+  unfold sqLinkPre; chan_simp
+@[simp, chan_frame] theorem sqLinkPre_destroyed (key : Nat) (srv : Server) (fd : Nat) (q : Query) : (sqLinkPre key srv fd q s).destroyed = s.destroyed := by
+  unfold sqLinkPre; chan_simp
+@[simp, chan_frame] theorem sqLinkPre_outOfFuel (key : Nat) (srv : Server) (fd : Nat) (q : Query) : (sqLinkPre key srv fd q s).outOfFuel = s.outOfFuel := by
+  unfold sqLinkPre; chan_simp
+@[simp, chan_frame] theorem sqLinkPre_modelFaults (key : Nat) (srv : Server) (fd : Nat) (q : Query) : (sqLinkPre key srv fd q s).modelFaults = s.modelFaults := by
+  unfold sqLinkPre; chan_simp
+@[simp, chan_frame] theorem sqLinkPre_clients (key : Nat) (srv : Server) (fd : Nat) (q : Query) : (sqLinkPre key srv fd q s).clients = s.clients := by
+  unfold sqLinkPre; chan_simp
+@[simp, chan_frame] theorem sqLinkPre_pendingWl (key : Nat) (srv : Server) (fd : Nat) (q : Query) : (sqLinkPre key srv fd q s).pendingWl = s.pendingWl := by
+  unfold sqLinkPre; chan_simp
+@[simp, chan_frame] theorem sqLinkPre_selfVariant (key : Nat) (srv : Server) (fd : Nat) (q : Query) : (sqLinkPre key srv fd q s).selfVariant = s.selfVariant := by
+  unfold sqLinkPre; chan_simp
+@[simp, chan_frame] theorem sqLinkPre_faults (key : Nat) (srv : Server) (fd : Nat) (q : Query) : (sqLinkPre key srv fd q s).faults = s.faults := by
+  unfold sqLinkPre; chan_simp
+@[simp, chan_frame] theorem sqLinkPre_reactions (key : Nat) (srv : Server) (fd : Nat) (q : Query) : (sqLinkPre key srv fd q s).reactions = s.reactions := by
+  unfold sqLinkPre; chan_simp
+@[simp, chan_frame] theorem sqLinkPre_notifyPending (key : Nat) (srv : Server) (fd : Nat) (q : Query) : (sqLinkPre key srv fd q s).notifyPending = s.notifyPending := by
+  unfold sqLinkPre; chan_simp
+@[simp, chan_frame] theorem sqLinkPre_alive (key : Nat) (srv : Server) (fd : Nat) (q : Query) : (sqLinkPre key srv fd q s).alive = s.alive := by
+  unfold sqLinkPre; chan_simp
+@[simp, chan_frame] theorem sqLinkPre_nextClient (key : Nat) (srv : Server) (fd : Nat) (q : Query) : (sqLinkPre key srv fd q s).nextClient = s.nextClient := by
+  unfold sqLinkPre; chan_simp
+@[simp, chan_frame] theorem sqLinkPre_doneToks (key : Nat) (srv : Server) (fd : Nat) (q : Query) : (sqLinkPre key srv fd q s).doneToks = s.doneToks := by
+  unfold sqLinkPre; chan_simp
+@[simp, chan_frame] theorem sqLinkPre_pendingToks (key : Nat) (srv : Server) (fd : Nat) (q : Query) : (sqLinkPre key srv fd q s).pendingToks = s.pendingToks := by
+  unfold sqLinkPre; chan_simp
+@[simp, chan_frame] theorem sqLinkPre_lastQid (key : Nat) (srv : Server) (fd : Nat) (q : Query) : (sqLinkPre key srv fd q s).lastQid = s.lastQid := by
+  unfold sqLinkPre; chan_simp
+@[simp, chan_frame] theorem sqLinkPre_reactSeq (key : Nat) (srv : Server) (fd : Nat) (q : Query) : (sqLinkPre key srv fd q s).reactSeq = s.reactSeq := by
+  unfold sqLinkPre; chan_simp
 end
 
 end Cares.Chan
